@@ -30,7 +30,10 @@
       LogInit(l) step before or after) followed by measurements ([meas_body]),
       each of which extends and logs the same digest:
         TPM2_PCR_Event style: TPMEvent / tpmsteps.Measure with an event type other
-          than EV_NO_ACTION (see C01_evlog_replay_noaction_type_refuted);
+          than EV_NO_ACTION -- or typed EV_NO_ACTION but leaving no trace ([traceless]:
+          PCR index other than 0/1, or data that cannot be obtained).  The only
+          TPMEvents outside the class are thus those typed EV_NO_ACTION whose extend
+          the TPM accepts: exactly the flows of C01_evlog_replay_noaction_type_refuted;
         TPM2_PCR_Extend style: TPMExtend of data whose converted bytes are a digest
           [dg] of the bank's size into PCR 0 or 1, directly followed by
           TPMEventLogAdd of the same [dg] (event type other than EV_NO_ACTION);
@@ -60,12 +63,28 @@
       InitTPM(_, _), bare TPMEventLogAdd of EV_NO_ACTION entries.  Every [wf_flow] is
       a [logged_flow]; so is InitTPM(l,false); Measure; LogInit(l); Measure.
 
+    - the ledger (Model/BootSimLedger.v, section 7): [flow_ledger al started fl] lists, per
+      executed step and action, the commands the action sends ([al_cmds]), whether it
+      returns nil ([al_ok]) and what it adds to MeasuredData ([al_meas]) -- a function of
+      the items, of SupportedAlgos [al] and of whether the TPM was started, without any
+      TPM state; [led_cmds] / [led_meas] / [led_issues] / [led_tagged] flatten it;
+      [run_flow_tagged] is the run that also keeps, beside every command, the coordinates
+      (executed step, action of the step) of the action that caused it (what
+      TPM.TPMExecute records as CauseCoordinates); [answers r fl] are the answers the TPM
+      gave to the commands of the log while the flow ran;
+    - data sources (Model/BootSimSrc.v, section 8): [src_data P s] is DataSource.Data for
+      StaticData / Bytes / MemRanges / Concat (and [SReported] for sources whose lookup is
+      third-party), [P] the platform (is there a BIOS image; how Bytes and MemRanges make
+      their reference; which bytes a reference forces); [resolve_flow P fl] is the flow of
+      sections 1-7 for a flow whose measurements name their source.
+
     Naming: [_partial] = the statement carries a hypothesis the property text
     does not have (said in the comment above it); [_refuted] = closed witness that
     the statement without that hypothesis is false of the faithful model. *)
 From CSS Require Import Lib.Base Model.TPM Proofs.TPM Model.BootSim Proofs.BootSim.
 From CSS Require Import Model.TPMSlices Proofs.TPMSlices Model.BootSimGen Proofs.BootSimSlices.
 From CSS Require Import Model.BootSimObjs Proofs.BootSimObjs.
+From CSS Require Import Model.BootSimLedger Proofs.BootSimLedger Model.BootSimSrc Proofs.BootSimSrc.
 
 (** * 1. Command log *)
 
@@ -104,13 +123,75 @@ Theorem C01_cmdlog_apply_refuted :
 Proof. exact commands_apply_stops. Qed.
 Print Assumptions C01_cmdlog_apply_refuted.
 
+(** EXACTLY when it does.  [tpm.Commands.Apply] on the recorded command log of any boot
+    (any flow, new or recycled TPM object, no hypothesis on the hash) returns nil if
+    and only if the TPM refused none of the recorded commands while the flow ran; it
+    then reproduces all PCR bank values and the event log.  Step issues that sent no
+    command (a data source that failed, data that cannot be read, Panic steps) do
+    not matter: [no_issues] of C01_cmdlog_apply_partial is sufficient, not necessary
+    (Example below).  This is the full form of C01_cmdlog_apply_partial /
+    C01_cmdlog_apply_any_boot_partial, which stay for their simpler hypothesis; what
+    the property text says without any hypothesis is false of the code
+    (C01_cmdlog_apply_refuted) because the command log also records refused commands. *)
+Theorem C01_cmdlog_apply_iff : forall ref bytes_of H r fl,
+  let t := s_tpm (fst (run_flow ref bytes_of H (boot_start r) fl)) in
+  ((exists t', commands_apply H fresh (cmdlog t) = (t', Ok tt)) <-> Forall ok (answers ref bytes_of H r fl)) /\
+  (forall t', commands_apply H fresh (cmdlog t) = (t', Ok tt) -> pcrs t' = pcrs t /\ evlog t' = evlog t).
+Proof. exact cmdlog_apply_iff. Qed.
+Print Assumptions C01_cmdlog_apply_iff.
+
+(** ... and otherwise it stops at the FIRST refused command, returns that command's
+    error, and leaves the new TPM with the PCR values and the event log of the
+    commands before it: nothing after it is re-executed. *)
+Theorem C01_cmdlog_apply_stops_at_first_refused : forall ref bytes_of H r fl pre c post,
+  let t := s_tpm (fst (run_flow ref bytes_of H (boot_start r) fl)) in
+  cmdlog t = pre ++ c :: post ->
+  Forall ok (results H fresh pre) ->
+  snd (step H (run H fresh pre) c) <> Ok tt ->
+  exists t', commands_apply H fresh (cmdlog t) = (t', snd (step H (run H fresh pre) c)) /\
+             pcrs t' = pcrs (reexec H fresh pre) /\ evlog t' = evlog (reexec H fresh pre).
+Proof. exact cmdlog_apply_stops. Qed.
+Print Assumptions C01_cmdlog_apply_stops_at_first_refused.
+
+(** a flow with step issues (a source that fails, a Panic step) none of whose commands
+    was refused: [no_issues] is false, Commands.Apply reproduces the TPM all the same;
+    and the premises of C01_cmdlog_apply_stops_at_first_refused are met by
+    [fl_double_init] (the second TPMInit is the refused command) *)
+Example C01_cmdlog_apply_iff_needs_less :
+  let fl := [[IInitTPM 3 true]; [IEvent 0 DSErr 1 None; IPanic]; [IEvent 0 toy_data 1 None]] in
+  ~ no_issues (snd (run_flow (list Z) lit_bytes toy_hash sim0 fl)) /\
+  Forall ok (answers (list Z) lit_bytes toy_hash RNew fl) /\
+  exists t', commands_apply toy_hash fresh (cmdlog (toy_run fl)) = (t', Ok tt) /\ pcrs t' = pcrs (toy_run fl).
+Proof.
+  cbv zeta. split; [|split].
+  - vm_compute. intros F. inversion F as [|? ? _ F1]; subst. inversion F1 as [|? ? F2 _]; subst.
+    inversion F2 as [|? ? F3 _]; subst. discriminate F3.
+  - vm_compute. repeat constructor.
+  - eexists. split; vm_compute; reflexivity.
+Qed.
+
+Example C01_cmdlog_apply_stops_premises :
+  exists pre c post,
+    cmdlog (toy_run fl_double_init) = pre ++ c :: post /\ Forall ok (results toy_hash fresh pre) /\
+    snd (step toy_hash (run toy_hash fresh pre) c) <> Ok tt /\ post <> [].
+Proof.
+  exists [Startup 0], (Startup 0). eexists. split; [vm_compute; reflexivity|].
+  split; [vm_compute; repeat constructor|]. split; [vm_compute; discriminate|discriminate].
+Qed.
+
 (** * 2. Event log, the routine that knows only the log (tpmeventlog.Replay) *)
 
 (** Both banks, both PCRs, every locality; startup logged, or at locality 0 (the
     restriction the property text itself makes for this routine).
-    PARTIAL only in this: [wf_flow] demands an event type other than EV_NO_ACTION
-    of every TPMEvent, which the property text ("arbitrary" measurements) does
-    not (finding C01-noaction-typed-event-extended, refuted statement below).
+    PARTIAL only in this: [wf_flow] excludes the TPMEvents typed EV_NO_ACTION whose
+    extend the TPM accepts (readable data into PCR 0 or 1; a TPMEvent typed
+    EV_NO_ACTION that leaves no trace -- other PCR index, failing source, unreadable
+    data -- is inside: Example C01_wf_flow_traceless_noaction), which the property
+    text ("arbitrary" measurements) does not.  For exactly those the statement is
+    false of the code (finding C01-noaction-typed-event-extended, refuted statement
+    below: such an event is extended but both replays skip / reject its entry), so
+    the missing clause cannot be had for the code as it is; it would hold once
+    TPMEvent.Apply does not extend EV_NO_ACTION events (or the replays fold them).
     The rest of [wf_flow] is the property's class of flows: one TPM startup, then
     measurements that extend and log; the three witnesses after it show that a
     flow which extends without logging, logs without extending, or starts at an
@@ -478,6 +559,184 @@ Example C01_shared_converter_example :
   map hs_state (o_pool o) = [[9]] /\ length (o_heap o) = 8%nat.
 Proof. vm_compute. repeat split. Qed.
 
+(** * 7. The command log is the ledger of the flow's items; causes
+
+    Sections 1-6 say that what is in the logs is right (every command came from an item
+    and carries the right digest) and that the logs agree with the PCRs.  This section
+    says that the logs are COMPLETE and IN ORDER: on every boot (any flow, failing
+    actions included; new or recycled TPM object) the command log is, command for
+    command, what the items of the flow send -- TPMInit one init command whether or
+    not the TPM accepts it; TPMEventLogAdd its entry; TPMExtend of readable data one
+    extend of the converted bytes; TPMEvent of readable data, on a started TPM and
+    PCR 0/1, extend and log-add of H(SHA1, bytes) then extend and log-add of
+    H(SHA256, bytes), otherwise the one refused SHA1 extend; nothing for data that
+    cannot be read, a failing source or a Panic --, the event log is the log-add
+    commands of it in order, MeasuredData the data of exactly the measurement actions
+    that returned nil, in order, and an issue is recorded for exactly the actions the
+    ledger says fail.  The ledger never looks at a TPM state. *)
+Theorem C01_boot_is_its_ledger : forall ref bytes_of H,
+  (forall a x, length (H a x) = hsize a) ->
+  forall r fl,
+  let res := run_flow ref bytes_of H (boot_start r) fl in
+  let t := s_tpm (fst res) in
+  let L := flow_ledger ref bytes_of H (algos (start_of r)) false fl in
+  cmdlog t = led_cmds L /\ evlog t = events_of (led_cmds L) /\
+  s_meas (fst res) = led_meas L /\ map (map failed) (snd res) = led_issues L.
+Proof. exact boot_is_ledger. Qed.
+Print Assumptions C01_boot_is_its_ledger.
+
+(** ... on every boot of a session on ONE TPM object ([run_boots], section 5), whatever
+    the earlier boots were and however the object was recycled between them. *)
+Theorem C01_session_is_its_ledgers : forall ref bytes_of H,
+  (forall a x, length (H a x) = hsize a) ->
+  forall bs prev,
+  Forall2 (fun res b =>
+             let L := flow_ledger ref bytes_of H (algos (start_of (fst b))) false (snd b) in
+             cmdlog (s_tpm (fst res)) = led_cmds L /\ evlog (s_tpm (fst res)) = events_of (led_cmds L) /\
+             s_meas (fst res) = led_meas L /\ map (map failed) (snd res) = led_issues L)
+          (run_boots ref bytes_of H prev bs) bs.
+Proof. exact session_is_ledgers. Qed.
+Print Assumptions C01_session_is_its_ledgers.
+
+(** The cause recorded beside every command.  The run that keeps, for every command,
+    the coordinates of the action being applied when TPMExecute appended it is the run
+    of sections 1-6; its command column is the command log; its coordinate column is the
+    ledger's ... *)
+Theorem C01_command_causes : forall ref bytes_of H,
+  (forall a x, length (H a x) = hsize a) ->
+  forall r fl,
+  let res := run_flow_tagged ref bytes_of H (boot_start r) 0 fl in
+  fst res = fst (run_flow ref bytes_of H (boot_start r) fl) /\
+  snd res = led_tagged 0 (flow_ledger ref bytes_of H (algos (start_of r)) false fl) /\
+  map snd (snd res) = cmdlog (s_tpm (fst (run_flow ref bytes_of H (boot_start r) fl))).
+Proof. exact tagged_is_ledger. Qed.
+Print Assumptions C01_command_causes.
+
+(** ... and names the action that sent the command: step [i] of the flow compiles
+    (against the SupportedAlgos the boot started with) to actions of which number [j]
+    issues [c] ([act_cmd]: for a measurement, with the hash of the converted bytes). *)
+Theorem C01_cause_is_the_sender : forall ref bytes_of H,
+  (forall a x, length (H a x) = hsize a) ->
+  forall r fl i j c,
+  In (i, j, c) (snd (run_flow_tagged ref bytes_of H (boot_start r) 0 fl)) ->
+  exists its acts a, nth_error fl i = Some its /\
+    compile_step ref bytes_of H (start_of r) its = Ok acts /\ nth_error acts j = Some a /\
+    act_cmd ref bytes_of H a c.
+Proof. exact tagged_cause. Qed.
+Print Assumptions C01_cause_is_the_sender.
+
+(** The ledger of [example_flow] (defined below): 19 commands; the PCR-7 measurement
+    leaves its one refused extend, no log entry and no MeasuredData; the refused second
+    TPMInit leaves its command; causes in step/action order. *)
+Example C01_ledger_example :
+  let L := flow_ledger (list Z) lit_bytes toy_hash supported false
+             [ [IInitTPM 3 true; IEvent 0 (DS (mkData [[1; 2; 3]; [4]] None)) 1 (Some [9])];
+               [IEvent 7 (DS (mkData [[1; 2; 3]; [4]] None)) 1 None; IInit 0];
+               [IEvent 1 DSErr 1 None; IPanic] ] in
+  map fst (led_tagged 0 L) =
+    [(0, 0); (0, 1); (0, 2); (0, 3); (0, 3); (0, 3); (0, 3); (1, 0); (1, 1)]%nat /\
+  led_issues L = [[false; false; false; false]; [true; true]; [true; true]] /\
+  length (led_meas L) = 1%nat /\
+  nth 7 (led_cmds L) Reset = Extend 7 ALG_SHA1 (toy_hash ALG_SHA1 [1; 2; 3; 4]).
+Proof. vm_compute. repeat split. Qed.
+
+(** * 8. Data sources
+
+    The measurements of sections 1-7 carry what DataSource.Data returned.  Here the
+    source is part of the flow ([resolve_flow]).  Concat -- the only constructor that
+    combines sources -- succeeds exactly when every sub-source succeeds with data that
+    has neither forced bytes nor a converter, and then hands on the references of all
+    of them in source order, without converter ... *)
+Theorem C01_concat_source : forall ref (P : platform ref) l d,
+  src_data ref P (SConcat l) = Ok d <->
+  exists ds, Forall2 (fun s d' => src_data ref P s = Ok d') l ds /\ Forall (plain ref P) ds /\
+             d = mkData (concat (map (@d_refs ref) ds)) None.
+Proof. exact concat_data. Qed.
+Print Assumptions C01_concat_source.
+
+(** ... otherwise the FIRST sub-source that fails or is refused decides: its own error
+    (or panic), "forced bytes", or "converter" ... *)
+Theorem C01_concat_first_refusal : forall ref (P : platform ref) pre x post ds,
+  Forall2 (fun s d => src_data ref P s = Ok d) pre ds -> Forall (plain ref P) ds ->
+  (forall d, src_data ref P x = Ok d -> ~ plain ref P d) ->
+  src_data ref P (SConcat (pre ++ x :: post)) = refusal ref P (src_data ref P x).
+Proof. exact concat_first_refusal. Qed.
+Print Assumptions C01_concat_first_refusal.
+
+(** ... so that the bytes a Concat measurement covers are the bytes of its sub-sources,
+    each as its own references denote them, concatenated in source order. *)
+Theorem C01_concat_bytes : forall ref bytes_of (P : platform ref) l d raw,
+  src_data ref P (SConcat l) = Ok d -> denotes ref bytes_of (d_refs d) raw ->
+  d_conv d = None /\
+  exists raws, Forall2 (fun s r => exists d', src_data ref P s = Ok d' /\ plain ref P d' /\
+                                             denotes ref bytes_of (d_refs d') r) l raws /\
+               raw = concat raws.
+Proof. exact concat_bytes. Qed.
+Print Assumptions C01_concat_bytes.
+
+(** The digest clause for flows whose measurements name their source: every command of
+    the command log of any boot was issued by an item of the flow, and for a
+    measurement carries the hash of (the converter applied to) exactly the bytes the
+    references of [src_data] of ITS source denote.  With C01_concat_bytes: for a Concat
+    the hash of the sub-sources' bytes in order; with [C01_bytes_source]: for Bytes(b)
+    the hash of [b]. *)
+Theorem C01_digest_is_hash_of_source_bytes : forall ref bytes_of H (P : platform ref) r fl c,
+  In c (cmdlog (s_tpm (fst (run_flow ref bytes_of H (boot_start r) (resolve_flow ref P fl))))) ->
+  exists x, In x (concat fl) /\
+  match x with
+  | SEv p s ty evd =>
+      exists d raw a, src_data ref P s = Ok d /\ denotes ref bytes_of (d_refs d) raw /\ In a supported /\
+      (c = Extend p a (H a (convert H (d_conv d) raw)) \/
+       c = LogAdd p a (H a (convert H (d_conv d) raw)) ty evd)
+  | SEx p s a =>
+      exists d raw, src_data ref P s = Ok d /\ denotes ref bytes_of (d_refs d) raw /\
+      c = Extend p a (convert H (d_conv d) raw)
+  | SI it => item_cmd ref bytes_of H it c
+  end.
+Proof. exact source_digest. Qed.
+Print Assumptions C01_digest_is_hash_of_source_bytes.
+
+(** Bytes(b) hands on ONE reference, without converter (none at all for a nil slice);
+    MemRanges one reference into the image when the State has one, else an error; the
+    bytes of a Bytes measurement are [b] whenever reading NewReference(b) gives [b]
+    (C11's subject; Example below for C11's model). *)
+Theorem C01_bytes_source : forall ref bytes_of (P : platform ref) b raw,
+  src_data ref P (SBytes (Some b)) = Ok (mkData [p_bytes_ref P b] None) /\
+  src_data ref P (SBytes None) = Ok (mkData [] None) /\
+  (forall rs, src_data ref P (SMemRanges rs) =
+              if p_image P then Ok (mkData [p_mem_ref P rs] None) else Err ERR_SOURCE) /\
+  (denotes ref bytes_of [p_bytes_ref P b] raw -> bytes_of (p_bytes_ref P b) = Ok b -> raw = b).
+Proof.
+  intros ref bytes_of P b raw. split; [reflexivity|]. split; [reflexivity|]. split; [reflexivity|].
+  exact (bytes_source_digest ref bytes_of P b raw).
+Qed.
+Print Assumptions C01_bytes_source.
+
+(** the premises of this section are met by concrete values: a platform over literal
+    references (a reference is its bytes, tagged "forced" or not); Concat of a
+    MemRanges-like part, an EMPTY Bytes and a static part succeeds and covers the parts
+    in order; with a non-empty Bytes, or a part with a converter, it is refused by that
+    part, whatever follows. *)
+Definition toy_plat : platform (bool * list Z) :=
+  mkPlat true (fun b => (true, b)) (fun rs => (false, map fst rs))
+         (fun r => if fst r then snd r else []).
+
+Example C01_concat_example :
+  let img := SMemRanges [(7, 1); (8, 1)] in
+  let st := SStatic (mkData [(false, [5]); (false, [6])] None) in
+  src_data _ toy_plat (SConcat [img; SBytes (Some []); st]) =
+    Ok (mkData [(false, [7; 8]); (true, []); (false, [5]); (false, [6])] None) /\
+  denotes _ (fun r => Ok (snd r)) [(false, [7; 8]); (true, []); (false, [5]); (false, [6])] [7; 8; 5; 6] /\
+  src_data _ toy_plat (SConcat [img; SBytes (Some [1]); SReported DSPanic]) = Err ERR_FORCED /\
+  src_data _ toy_plat (SConcat [SStatic (mkData [(false, [5])] (Some 4)); img]) = Err ERR_CONVERTER /\
+  src_data _ toy_plat (SConcat [img; SReported DSPanic; SBytes (Some [1])]) = Panic /\
+  src_data _ toy_plat (SConcat []) = Ok (mkData [] None).
+Proof.
+  cbv zeta. split; [reflexivity|]. split.
+  - exists [[7; 8]; []; [5]; [6]]. split; [repeat constructor|reflexivity].
+  - repeat split; reflexivity.
+Qed.
+
 (** * Examples: the hypotheses are satisfiable by non-trivial values *)
 
 Example C01_toy_hash_length : forall a x, length (toy_hash a x) = hsize a.
@@ -501,12 +760,29 @@ Proof.
   assert (R : forall rs, readable (list Z) lit_bytes (Some rs)).
   { intros rs. exists (concat rs). exists rs. split; [|reflexivity].
     induction rs; constructor; [reflexivity|assumption]. }
-  apply MB_item; [cbn [meas_item]; unfold EV_NO_ACTION; discriminate|].
+  apply MB_item; [left; unfold EV_NO_ACTION; discriminate|].
   apply MB_item; [cbn [meas_item]; split; apply R|].
-  apply MB_item; [cbn [meas_item]; unfold EV_NO_ACTION; discriminate|].
-  apply MB_item; [cbn [meas_item]; unfold EV_NO_ACTION; discriminate|].
+  apply MB_item; [left; unfold EV_NO_ACTION; discriminate|].
+  apply MB_item; [left; unfold EV_NO_ACTION; discriminate|].
   apply MB_item; [exact I|].
   apply MB_pair; [right; reflexivity|reflexivity|reflexivity|reflexivity|unfold EV_NO_ACTION; discriminate|].
+  apply MB_nil.
+Qed.
+
+(** TPMEvents typed EV_NO_ACTION that leave no trace are inside [wf_flow]: into PCR 7
+    (the TPM refuses the first extend), from a source that fails, of data that
+    cannot be read *)
+Example C01_wf_flow_traceless_noaction :
+  wf_flow (list Z) (fun r => match r with [] => Panic | _ => Ok r end) toy_hash 0 false
+    [ [IInitTPM 0 false];
+      [IEvent 7 toy_data EV_NO_ACTION None; IEvent 0 DSErr EV_NO_ACTION None];
+      [IEvent 1 (DS (mkData [[1]; []] None)) EV_NO_ACTION (Some [9]); IEvent 0 toy_data 1 None] ].
+Proof.
+  exists [IInitTPM 0 false]. eexists. split; [reflexivity|]. split; [constructor|].
+  apply MB_item; [right; left; intros [X|X]; discriminate X|].
+  apply MB_item; [right; right; intros d msg X; discriminate X|].
+  apply MB_item; [right; right; intros d msg X; inversion X; subst d; vm_compute; discriminate|].
+  apply MB_item; [left; unfold EV_NO_ACTION; discriminate|].
   apply MB_nil.
 Qed.
 
